@@ -225,6 +225,9 @@ package netpoll
 //@   rely connection.state: now >= was && now <= 2
 //@   ensures cinv(c) && !c.heldC && discRuns - old(discRuns) <= 1 && discRuns >= old(discRuns)
 //@   ensures c.heldP == old(c.heldP) && c.sealed_heldP == old(c.sealed_heldP) && c.heldF == old(c.heldF)
+//@   note a connection that has an OnDisconnect callback and no OnConnect callback gets the callback on every call, whatever its state
+//@   note (the hang-up may come before the acceptor marked it connected)
+//@   ensures old(typeis(c.onDisconnectCallback.v, OnDisconnect) && c.onDisconnectCallback.v#val != 0 && c.onConnectCallback.v == nil) ==> discRuns == old(discRuns) + 1
 //@   modifies world, discRuns, c.heldC
 //@   ghost before call dyn#1: discRuns = discRuns + 1
 //@   ghost before call dyn#2: discRuns = discRuns + 1
